@@ -44,10 +44,39 @@ def build(rng):
         kinds["i%d" % i] = "input"
     names = ["i%d" % i for i in range(nin)]
     tm = None
+    if rng.random() < 0.5:
+        # compile-time ints declared before the named results (they live in the same name map)
+        prog.append(["int", "kq", ["n", rng.randint(2, 9)]])
+    import copy
     for k in range(rng.randint(3, 9)):
         nm = "n%d" % k
         a, b = rng.choice(names), rng.choice(names)
-        form = rng.choice(["arith", "arith", "decider", "sel", "alias", "const", "merge", "memread", "call", "bundle", "proj"])
+        form = rng.choice(["arith", "arith", "decider", "sel", "alias", "const", "merge", "memread", "call", "bundle", "proj",
+                           "dup", "dup", "foldcall", "subexpr"])
+        if form == "dup":
+            # the same expression as an earlier named result: the optimiser shares the node, both names stay visible
+            prev = [s_ for s_ in prog if s_[0] in ("sig", "bun") and kinds.get(s_[1]) in ("arith", "decider", "sel", "proj", "bundle", "call")]
+            if not prev:
+                form = "arith"
+            else:
+                src_stmt = rng.choice(prev)
+                prog.append([src_stmt[0], nm, copy.deepcopy(src_stmt[2])])
+                kinds[nm] = "bundle" if src_stmt[0] == "bun" else "dup"
+                continue
+        if form == "foldcall":
+            # a call with literal arguments folds to a constant at IR level
+            if not any(s_[0] == "func" and s_[1] == "g" for s_ in prog):
+                prog.append(["func", "g", [["Signal", "s"], ["int", "q"]], [], ["p", ["b", "*", ["v", "s"], ["v", "q"]], types.fresh()]])
+            prog.append(["sig", nm, ["call", "g", [["n", rng.randint(2, 9)], ["n", rng.randint(2, 9)]]]])
+            kinds[nm] = "foldcall"
+            continue
+        if form == "subexpr":
+            # a named result that is a sub-expression of the next one
+            t = types.fresh()
+            prog.append(["sig", nm, ["b", "+", ["p", ["b", "*", ["v", a], ["n", 2]], t], ["n", rng.randint(1, 9)]]])
+            prog.append(["sig", nm + "s", ["p", ["b", "*", ["v", a], ["n", 2]], t]])
+            kinds[nm] = kinds[nm + "s"] = "arith"
+            continue
         if form == "arith":
             prog.append(["sig", nm, ["p", ["b", rng.choice(["+", "-", "*"]), ["v", a], ["v", b]], types.fresh()]])
         elif form == "decider":
@@ -73,7 +102,7 @@ def build(rng):
                 prog.append(["write", "m", ["p", ["v", ia], tm], ["c", ">", ["v", ib], ["n", 0]]])
             prog.append(["sig", nm, ["r", "m"]])
         elif form == "call":
-            if not any(s[0] == "func" for s in prog):
+            if not any(s[0] == "func" and s[1] == "f" for s in prog):
                 prog.append(["func", "f", [["Signal", "s"], ["int", "q"]], [], ["p", ["b", "+", ["b", "*", ["v", "s"], ["n", 2]], ["v", "q"]], types.fresh()]])
             prog.append(["sig", nm, ["call", "f", [["v", a], ["n", rng.randint(1, 9)]]]])
         elif form == "bundle":
